@@ -42,6 +42,8 @@ Extra == <<
   [n |-> "command quoting", top |-> FALSE, p |-> <<"command">>, v |-> L(<<S("sh"), S("-c"), S("echo \"a b\" $$HOME")>>)],
   [n |-> "devices", top |-> FALSE, p |-> <<"devices">>, v |-> Sq1(S("/dev/a:/dev/b:rw"))],
   [n |-> "device requests", top |-> FALSE, p |-> <<"deploy">>, v |-> M1("resources", M1("reservations", M1("devices", Sq1(M3("capabilities", Sq1(S("gpu")), "count", I(2), "driver", S("nvidia"))))))],
+  [n |-> "device request by ids", top |-> FALSE, p |-> <<"deploy">>, v |-> M1("resources", M1("reservations", M1("devices", Sq1(M3("capabilities", Sq1(S("gpu")), "device_ids", Sq2(S("0"), S("3")), "driver", S("nvidia"))))))],
+  [n |-> "gpus by ids", top |-> FALSE, p |-> <<"gpus">>, v |-> Sq1(M2("driver", S("nvidia"), "device_ids", Sq1(S("GPU-1"))))],
   [n |-> "gpus all", top |-> FALSE, p |-> <<"gpus">>, v |-> Sq1(M2("driver", S("nvidia"), "count", S("all")))],
   [n |-> "develop watch", top |-> FALSE, p |-> <<"develop">>, v |-> M1("watch", Sq1(M3("path", S("./src"), "action", S("sync"), "target", S("/app"))))],
   [n |-> "credential_spec", top |-> FALSE, p |-> <<"credential_spec">>, v |-> M1("file", S("spec.json"))],
